@@ -580,7 +580,9 @@ pub fn judge_c01(cfg: &HybCfg, ops: &[HOp], trace: &HTrace) -> C01Judgement {
 /// independent format reader.
 pub fn older_version_written_after_newer(cfg: &HybCfg, trace: &HTrace, generation: u32, key: u64, stale: u64) -> bool {
     let tomb = if cfg.tombstone { Some(0usize) } else { None };
-    older_written_after_newer_in(trace.log.iter().filter(|(g, _)| *g == generation).map(|(_, r)| r), cfg.blob_index_size, tomb, key, stale)
+    // the order of the block writes is judged within one generation (the device's logical clock restarts with it); a
+    // stale copy that an earlier generation left on the device is what a later generation recovers
+    (0..=generation).any(|gn| older_written_after_newer_in(trace.log.iter().filter(|(g, _)| *g == gn).map(|(_, r)| r), cfg.blob_index_size, tomb, key, stale))
 }
 
 /// The same condition over any device log (one generation).
@@ -588,6 +590,7 @@ pub fn older_written_after_newer_in<'a>(log: impl Iterator<Item = &'a crate::sim
     use crate::fmtparse::{WriteKind, classify_write};
     let mut of_stale = vec![];
     let mut of_newer = vec![];
+    let mut by_seq: Vec<(u64, &crate::simdev::LogRec)> = vec![];
     for r in log {
         if r.kind != crate::simdev::IoKind::Write {
             continue;
@@ -598,6 +601,7 @@ pub fn older_written_after_newer_in<'a>(log: impl Iterator<Item = &'a crate::sim
                 if e.key != Some(key) {
                     continue;
                 }
+                by_seq.push((e.sequence, r));
                 if let Some(v) = e.value.as_ref() {
                     if let Decoded::Valid { key: k2, version } = crate::hval::decode_value(v) {
                         if k2 == key && version == stale {
@@ -609,6 +613,12 @@ pub fn older_written_after_newer_in<'a>(log: impl Iterator<Item = &'a crate::sim
                 }
             }
         }
+    }
+    if of_stale.is_empty() {
+        // values too small to carry their version (0..24 bytes) cannot be told apart by content: fall back to the entry
+        // sequences - some block write carrying an entry of this key was unfinished when a block write carrying an
+        // entry of the key with a higher sequence was issued
+        return by_seq.iter().any(|(sa, a)| by_seq.iter().any(|(sb, b)| sb > sa && a.completed_clock.unwrap_or(u64::MAX) > b.issued_clock));
     }
     of_stale.iter().any(|a| of_newer.iter().any(|b| a.completed_clock.unwrap_or(u64::MAX) > b.issued_clock))
 }
